@@ -176,7 +176,30 @@ def ret_expr(func):
 
 # --------------------------------------------------------------------------
 
+ATM = "structure/atoms.py"
+_COORD_REFERENCE = """
+def coord(item):
+    if type(item) in (Atom, AtomArray, AtomArrayStack):
+        return item.coord
+    elif isinstance(item, np.ndarray):
+        return item.astype(np.float32, copy=False)
+    else:
+        return np.array(item, dtype=np.float32)
+"""
+
+
+def r0_coord(ctx):
+    """every measurement starts from coord(x): structures hand out their float32 coordinates, anything else - an integer array
+    included - is converted to float32 (otherwise fractions and displacements are computed in the caller's integer type)"""
+    from ..equiv import same_function
+    f = ctx.src(ATM).func("coord")
+    ok, shown = same_function(f, _COORD_REFERENCE)
+    ctx.ob("R2.coordinates-are-float32", ATM, "coord", "ndarray -> astype(float32, copy=False); other -> np.array(.., float32)", ok,
+           "coordinates given as a plain array must be converted to float32 like every other input; the code computes " + shown, f.lineno)
+
+
 def run(ctx):
+    r0_coord(ctx)
     r1_index(ctx)
     r2_definitions(ctx)
     r3_periodic(ctx)
@@ -487,28 +510,43 @@ def r3_periodic(ctx):
         ctx.ob("R3.box-kind-select", GEO, "displacement", f"rank {rk}",
                len(sel) == 1 and sel[0][1] == [helpers[0]] and sel[0][2] == [helpers[1]],
                "orthogonal boxes go to the threshold rule, all others to the image search", st.lineno)
-        if rk == 3 and sel:
-            s = sel[0][0]
+        if rk == 3:
             loop = next((x for x in st.body if isinstance(x, ast.For)), None)
             ctx.need(loop is not None and isinstance(loop.target, ast.Name), "model loop in rank-3 branch")
             i = loop.target.id
+            # every path through the loop body that reaches a helper: which box and which orthogonality flag decide it, and
+            # which arrays the helper gets (temporaries substituted, `.astype(..)` wrappers dropped)
+            from ..exprnorm import calls_under_paths, canon as _canon, spec as _spec2
+
+            def bare(e):
+                while isinstance(e, ast.Call) and isinstance(e.func, ast.Attribute) and e.func.attr == "astype":
+                    e = e.func.value
+                return ast.unparse(e)
+            seen = set()
             ok = True
-            for c in ast.walk(s):
-                if isinstance(c, ast.Call) and call_name(c) in helpers:
-                    a0 = c.args[0]
-                    while isinstance(a0, ast.Call):
-                        a0 = a0.func.value
-                    a1 = c.args[1]
-                    while isinstance(a1, ast.Call):
-                        a1 = a1.func.value
-                    ok &= ast.unparse(a0) == f"fractions[{i}]" and ast.unparse(c.args[2]) == f"disp[{i}]" \
-                        and ast.unparse(a1) == "box_for_model"
-            bm = [ast.unparse(x.value) for x in ast.walk(loop) if isinstance(x, ast.Assign) and ast.unparse(x.targets[0]) == "box_for_model"]
-            om = [ast.unparse(x.value) for x in ast.walk(loop) if isinstance(x, ast.Assign) and ast.unparse(x.targets[0]) == "orthogonality_for_model"]
-            ctx.ob("R3.per-model", GEO, "displacement", f"box {bm} orth {om}",
-                   ok and sorted(bm) == sorted(["box", f"box[{i}]"]) and sorted(om) == sorted(["orthogonality", f"orthogonality[{i}]"])
-                   and s.test.id == "orthogonality_for_model",
-                   "model i is measured in box i (or the single box) with that box's orthogonality", loop.lineno)
+            for conds, c in calls_under_paths(loop.body, set(helpers)):
+                cs = set()
+                for t in conds:
+                    try:
+                        cs.add(repr(_canon(t)))
+                    except Exception:
+                        pass
+                if len(c.args) != 3:
+                    ok = False
+                    continue
+                frac, bx, dsp = bare(c.args[0]), bare(c.args[1]), bare(c.args[2])
+                single = bx == "box"
+                orth_flag = "orthogonality" if single else f"orthogonality[{i}]"
+                want_orth = call_name(c) == helpers[0]
+                ok &= frac == f"fractions[{i}]" and dsp == f"disp[{i}]" and bx in ("box", f"box[{i}]")
+                ok &= repr(_spec2(orth_flag if want_orth else f"not {orth_flag}")) in cs
+                ok &= (repr(_spec2("box.ndim == 2")) in cs) if single else (repr(_spec2("box.ndim == 3")) in cs or repr(_spec2("not box.ndim == 2")) in cs)
+                seen.add((single, want_orth))
+            ctx.ob("R3.per-model", GEO, "displacement", f"helper calls per path: {sorted(seen)}",
+                   ok and seen == {(True, True), (True, False), (False, True), (False, False)},
+                   "model i is measured in box i (or the single box) with that box's orthogonality: fractions[i] / disp[i] go with "
+                   "`box` and `orthogonality` when box.ndim == 2, with `box[i]` and `orthogonality[i]` when box.ndim == 3; orthogonal "
+                   "boxes take the threshold rule, all others the image search", loop.lineno)
         if rk == 1:
             post = [ast.unparse(x) for x in st.body if isinstance(x, ast.Assign)]
             ctx.ob("R3.rank1-unwrap", GEO, "displacement", "disp = disp[0]", "disp = disp[0]" in post
@@ -540,29 +578,87 @@ def r3_periodic(ctx):
            "the shifted fractions are converted back with the same box after the shift", o.lineno)
     # triclinic helper
     t = g.func("_displacement_triclinic_box")
+    # the candidate shifts: three index variables, each running over a literal set, and one list [x, y, z] per combination -
+    # written as three nested loops with an append, as a comprehension with three `for` clauses, or over itertools.product
+    def index_set(it):
+        if isinstance(it, ast.Call) and call_name(it) == "range":
+            return set(range(*[const_eval(a) for a in it.args]))
+        if isinstance(it, (ast.Tuple, ast.List)):
+            return {const_eval(e) for e in it.elts}
+        raise AnalysisError("image index set is not a literal range / tuple")
+
+    def product_sets(it, n):
+        if isinstance(it, ast.Call) and (call_name(it) or "").split(".")[-1] == "product":
+            rep = [k.value for k in it.keywords if k.arg == "repeat"]
+            if rep and len(it.args) == 1 and const_eval(rep[0]) == n:
+                return [index_set(it.args[0])] * n
+            if not it.keywords and len(it.args) == n:
+                return [index_set(a) for a in it.args]
+        return None
+    lv, ranges, elem, comp, anchor = None, None, None, {}, t
     loops = []
     x = t
     while True:
-        nxt = [s for s in (x.body if not isinstance(x, ast.FunctionDef) or True else []) if isinstance(s, ast.For)]
+        nxt = [s_ for s_ in x.body if isinstance(s_, ast.For)]
         if not nxt:
             break
         loops.append(nxt[0])
         x = nxt[0]
-    ctx.need(len(loops) == 3, "three nested image loops")
-    ranges = []
-    for lp in loops:
-        ctx.need(isinstance(lp.iter, ast.Call) and call_name(lp.iter) == "range", "literal range in image loop")
-        ranges.append(set(range(*[const_eval(a) for a in lp.iter.args])))
+    def three_components(e):
+        """[x, y, z] written out, or `[f(dim) for dim in range(3)]` written out here"""
+        if isinstance(e, (ast.List, ast.Tuple)) and len(e.elts) == 3:
+            return e
+        if isinstance(e, ast.ListComp) and len(e.generators) == 1 and not e.generators[0].ifs and isinstance(e.generators[0].target, ast.Name):
+            try:
+                dims = sorted(index_set(e.generators[0].iter))
+            except (AnalysisError, NotConst):
+                return None
+            if dims == [0, 1, 2]:
+                from ..exprnorm import subst as _sb
+                return ast.List(elts=[_sb(e.elt, {e.generators[0].target.id: ast.Constant(d)}) for d in dims], ctx=ast.Load())
+        return None
+    comps = [n_ for n_ in ast.walk(t) if isinstance(n_, ast.ListComp) and three_components(n_.elt) is not None
+             and not (len(n_.generators) == 1 and isinstance(n_.generators[0].target, ast.Name))]
+    if len(loops) == 3 and all(isinstance(lp.target, ast.Name) for lp in loops):
+        lv = [lp.target.id for lp in loops]
+        ranges = [index_set(lp.iter) for lp in loops]
+        inner = loops[2]
+        for st in inner.body:
+            if isinstance(st, ast.Assign) and isinstance(st.targets[0], ast.Name):
+                comp[st.targets[0].id] = st.value
+        app = [c for c in ast.walk(inner) if isinstance(c, ast.Call) and isinstance(c.func, ast.Attribute) and c.func.attr == "append"]
+        ctx.need(len(app) == 1 and isinstance(app[0].args[0], (ast.List, ast.Tuple)), "periodic_shift.append([x, y, z])")
+        elem, anchor = app[0].args[0], loops[0]
+    elif len(loops) == 1 and isinstance(loops[0].target, (ast.Tuple, ast.List)) and len(loops[0].target.elts) == 3 \
+            and product_sets(loops[0].iter, 3) is not None:
+        lv = [e.id for e in loops[0].target.elts]
+        ranges = product_sets(loops[0].iter, 3)
+        for st in loops[0].body:
+            if isinstance(st, ast.Assign) and isinstance(st.targets[0], ast.Name):
+                comp[st.targets[0].id] = st.value
+        app = [c for c in ast.walk(loops[0]) if isinstance(c, ast.Call) and isinstance(c.func, ast.Attribute) and c.func.attr == "append"]
+        ctx.need(len(app) == 1 and isinstance(app[0].args[0], (ast.List, ast.Tuple)), "periodic_shift.append([x, y, z])")
+        elem, anchor = app[0].args[0], loops[0]
+    elif len(comps) == 1:
+        c_ = comps[0]
+        gens = c_.generators
+        ctx.need(not any(g_.ifs for g_ in gens), "unconditional image comprehension")
+        if len(gens) == 3 and all(isinstance(g_.target, ast.Name) for g_ in gens):
+            lv = [g_.target.id for g_ in gens]
+            ranges = [index_set(g_.iter) for g_ in gens]
+        elif len(gens) == 1 and isinstance(gens[0].target, (ast.Tuple, ast.List)) and len(gens[0].target.elts) == 3:
+            lv = [e.id for e in gens[0].target.elts]
+            ranges = product_sets(gens[0].iter, 3)
+        elem, anchor = three_components(c_.elt), c_
+    ctx.need(lv is not None and ranges is not None and elem is not None,
+             "the eight candidate images (three nested loops, a three-fold comprehension or itertools.product over literal index sets)")
     ctx.ob("R3.triclinic-images", GEO, t.name, str([sorted(r) for r in ranges]), all({-1, 0} <= r for r in ranges),
-           "with fractions in [0,1) the shortest image needs the shifts -1 and 0 on every axis (8 candidates)", loops[0].lineno)
-    lv = [lp.target.id for lp in loops]
-    inner = loops[2]
-    comp = {}
-    for st in inner.body:
-        if isinstance(st, ast.Assign) and isinstance(st.targets[0], ast.Name):
-            comp[st.targets[0].id] = st.value
-    app = [c for c in ast.walk(inner) if isinstance(c, ast.Call) and isinstance(c.func, ast.Attribute) and c.func.attr == "append"]
-    ctx.need(len(app) == 1 and isinstance(app[0].args[0], (ast.List, ast.Tuple)), "periodic_shift.append([x, y, z])")
+           "with fractions in [0,1) the shortest image needs the shifts -1 and 0 on every axis (8 candidates)", anchor.lineno)
+
+    class _E:
+        pass
+    app = [_E()]
+    app[0].args = [elem]
     env = {}
     for r in range(3):
         for c in range(3):
